@@ -152,13 +152,17 @@ class Gen:
         if r.random() < 0.06 * (self.consts + self.arith):
             # a foldable operand next to a run-time operator of higher precedence than the folded form's own syntax
             neg = self.pick([[A("un"), "-", c(r.randrange(1, 5))], [A("bin"), "-", c(1), c(r.randrange(2, 6))],
-                             [A("un"), "-", [A("un"), "+", c(2)]], [A("bin"), "*", c(3), [A("un"), "-", c(1)]]])
+                             [A("un"), "-", [A("un"), "+", c(2)]], [A("bin"), "*", c(3), [A("un"), "-", c(1)]],
+                             # a negative *float* constant (true division folds to a float: outside the Lean value
+                             # universe, but the optimized / unoptimized / constants-lifted renders must still agree)
+                             [A("bin"), "/", [A("un"), "-", c(r.randrange(1, 9))], c(2)],
+                             [A("bin"), "/", c(r.randrange(1, 9)), [A("un"), "-", c(4)]]])
             return self.pick([[A("bin"), "**", neg, n(self.pick(["j", "i"]))],
                               [A("filter"), neg, "abs"],
                               [A("bin"), "-", n("i"), neg],
                               [A("un"), "-", neg]])
         if k < 0.45 or r.random() < self.arith:
-            op = self.pick(["+", "-", "*", "//", "%", "**", "+", "-", "*"])
+            op = self.pick(["+", "-", "*", "//", "%", "**", "+", "-", "*", "/"])
             if op == "**":
                 # small exponents only (value growth); sometimes a variable one so that a folded base meets a runtime `**`
                 return [A("bin"), op, self.ty(self.int, d - 1), c(r.randrange(0, 4)) if r.random() < 0.6 else n(self.pick(["j", "i"]))]
